@@ -297,8 +297,8 @@ func sumFourSquaresSpecial(n *big.Int) (*big.Int, *big.Int, *big.Int, *big.Int) 
 
 // PrimeSqrt calculates sqrt modulo a prime
 func PrimeSqrt(a *big.Int, pa *big.Int) (*big.Int, bool) {
-	// Handle the case a == 0
-	if a.Cmp(bigZERO) == 0 {
+	// Handle the case a == 0 (mod pa)
+	if new(big.Int).Mod(a, pa).Sign() == 0 {
 		return big.NewInt(0), true // should be a new big int!
 	}
 
